@@ -45,11 +45,23 @@ def cases(tier):
         out.append(dict(sys="GaussianConstrained", metric="dense", curved=si % 2 == 0, st=si))
         for fl in zoo.RIEMANNIAN_FLAVOURS:
             out.append(dict(sys="Riemannian", metric=fl, curved=True, st=si))
+    # structured metric objects (their exact dense value is handed to the specification)
+    for gi, gname in enumerate(GIVEN_METRICS if tier == "thorough" else GIVEN_METRICS[:6]):
+        out.append(dict(sys=("Euclidean", "Gaussian", "Constrained")[gi % 3], metric="given", given=gname, curved=True, st=gi % 2))
     for si, var in ((len(STATES), "pos"), (len(STATES) + 1, "mom")):
         for sysname, metric in (("Euclidean", "dense"), ("Gaussian", "diag"), ("Gaussian", "identity"), ("Constrained", "dense"),
                                 ("GaussianConstrained", "diag"), ("Riemannian", "diag"), ("Riemannian", "chol")):
             out.append(dict(sys=sysname, metric=metric, curved=True, st=si, assigned=var))
     return out
+
+
+GIVEN_METRICS = ["tri-lower", "lowrank-", "block", "lowrank+*4(used)", "scaled", "product", "tri-upper", "lowrank+", "dense*4(used)",
+                 "lowrank-/4(used)", "tri-lower-full", "block*4(used)"]
+
+
+def _given(name):
+    from mbv import matzoo
+    return matzoo.pos_def_metrics(3)[name]
 
 
 def _rat_tla(x):
@@ -60,9 +72,14 @@ def _rat_tla(x):
 
 def _case_tla(c):
     st = STATES_ALL[c["st"]]
-    return ('[sys |-> %s, metric |-> %s, curved |-> %s, st |-> [q |-> <<%s>>, p |-> <<%s>>]]' % (
+    extra = ""
+    if c["metric"] == "given":
+        from fractions import Fraction
+        dense = _given(c["given"])[1]
+        extra = ", marr |-> <<" + ", ".join("<<" + ", ".join(_rat_tla(Fraction(float(x))) for x in row) + ">>" for row in dense) + ">>, given |-> " + tlc.tla_str(c["given"])
+    return ('[sys |-> %s, metric |-> %s, curved |-> %s, st |-> [q |-> <<%s>>, p |-> <<%s>>]%s]' % (
         tlc.tla_str(c["sys"]), tlc.tla_str(c["metric"]), tlc.to_tla(c["curved"]),
-        ", ".join(_rat_tla(x) for x in st["q"]), ", ".join(_rat_tla(x) for x in st["p"])))
+        ", ".join(_rat_tla(x) for x in st["q"]), ", ".join(_rat_tla(x) for x in st["p"]), extra))
 
 
 def run_spec(cs, name, shards=14):
@@ -121,10 +138,22 @@ def check_against_real(recs):
                 raise MachineryError("SysGrad.tla's density differs from zoo.Model's")
             if rec["jac"] and not np.allclose(model._jac(q.copy()), np.array([[_r(x) for x in row] for row in rec["jac"]]), rtol=1e-12, atol=1e-12):
                 raise MachineryError("SysGrad.tla's constraint differs from zoo.Model's")
-            system = (zoo.make_system(kind, model, metric=metric) if kind != "Riemannian"
-                      else zoo.make_system(kind, model, flavour=metric))
+            if metric == "given":
+                import mici.systems as S_
+                mobj = _given(rec["given"])[0]
+                kw = dict(metric=mobj, grad_neg_log_dens=model.grad_neg_log_dens)
+                if kind == "Euclidean":
+                    system = S_.EuclideanMetricSystem(model.neg_log_dens, **kw)
+                elif kind == "Gaussian":
+                    system = S_.GaussianEuclideanMetricSystem(model.neg_log_dens, **kw)
+                else:
+                    system = S_.DenseConstrainedEuclideanMetricSystem(model.neg_log_dens, model.constr, dens_wrt_hausdorff=False,
+                                                                      jacob_constr=model.jacob_constr, mhp_constr=model.mhp_constr, **kw)
+            else:
+                system = (zoo.make_system(kind, model, metric=metric) if kind != "Riemannian"
+                          else zoo.make_system(kind, model, flavour=metric))
             cls = type(system).__name__
-            tag = f"{kind}[{metric}{'' if curved else ',linear'}]" + (f"(after state.{rec['_assigned']} = ...)" if rec.get("_assigned") else "")
+            tag = f"{kind}[{metric if metric != 'given' else rec['given']}{'' if curved else ',linear'}]" + (f"(after state.{rec['_assigned']} = ...)" if rec.get("_assigned") else "")
             assigned = rec.get("_assigned")
             shared = None
             if assigned:
